@@ -64,8 +64,8 @@ def ob_ranges(chk, P):
         rng = st.ref(Adt('Range', 'Counted', [Int(a, 'i64'), Int(a + w, 'i64')]))
         for s2, kind, val in ex.run(f_eval, [rng], st):
             ob.paths += 1; ob.reached()
-            sc = {'kind': 'template', 'template': '{% for i in (3..6) %}{{i}},{% endfor %}|{% for i in (5..3) %}{{i}}{% else %}E{% endfor %}|{% for i in (-2..1) %}{{i}},{% endfor %}', '_e': '3,4,5,6,|E|-2,-1,0,1,'}
-            conf = lambda r: r.get('output') != '3,4,5,6,|E|-2,-1,0,1,'
+            sc = {'kind': 'template', 'template': '{% for i in (3..6) %}{{i}},{% endfor %}|{% for i in (5..3) %}{{i}}{% else %}E{% endfor %}|{% for i in (-2..1) %}{{i}},{% endfor %}|{% for i in (4..4) %}{{i}}{% else %}E{% endfor %}|{% for i in (0..0) %}{{i}}{% else %}E{% endfor %}', '_e': '3,4,5,6,|E|-2,-1,0,1,|4|0'}
+            conf = lambda r: r.get('output') != '3,4,5,6,|E|-2,-1,0,1,|4|0'
             if kind == 'panic' or val.variant != 'Ok':
                 ob.violation('Range::evaluate/panic', f'range materialisation: {kind} {val}', {}, sc, conf); continue
             items = s2.deref_all(val.items[0]).items
